@@ -10,7 +10,8 @@ RULE = ("every generated program (random structured programs and expression stat
         "escaped #) inserted at statement boundaries. Metamorphic oracle on the implementation: all layouts print the "
         "same text and end the same way (error class; lines may move); each layout is also compared with the Lean model. "
         "Includes ৫-১, ক[০]-১, (ক)-১ and the other operator/bracket adjacencies. Non-trivial: the minimal layout differs "
-        "from the one-line layout in at least 3 positions.")
+        "from the one-line layout in at least 3 positions."
+        ' Name-collision scenarios (props/collisions.py) in all six layouts.')
 ASSUMPTIONS = ["comments are inserted only where a statement may start (that is where the language allows them)"]
 default_compare = lambda m, i: C.compare_run(m, i)
 COMMENTS = [" মন্তব্য ", "", " দুই\nলাইন ", " escaped \\# hash ", "\nশুরুতে নতুন লাইন", " ; } { থামাও; \" ", "দেখাও ১;"]
@@ -75,6 +76,14 @@ def cases(rng, tier, stats):
         out.append(layouts_case("program-layouts", G.toks_stmts(prog), r))
     stats["programs"] = m
     stats["layouts_per_program"] = 6
+    # one name in two roles (props/collisions.py) in every layout: statements that resolve the same name differently share a line in
+    # the one-line layouts and are spread over lines in the others
+    from props import collisions
+    ncl = 0
+    for sname, prog in collisions.scenarios().items():
+        out.append(layouts_case("name-collision-layouts", G.toks_stmts(prog), rng.fork("nc" + sname)))
+        ncl += 1
+    stats["name_collision_layouts"] = ncl
     # layouts and comments inside imported modules (the first token of a module file may be a comment)
     mm = 1500 if tier == "thorough" else 80
     for i in range(mm):
